@@ -177,8 +177,15 @@ where
 	/// Trims from the start of the capture buffer so the next chunk will begin
 	/// at the specified reader offset.
 	fn trim_to_offset(&mut self, offset: u64) {
-		let trim_len = usize::try_from(offset - self.captured_start_offset).unwrap();
-		self.captured_start_offset = offset;
+		let mut trim_len = usize::try_from(offset - self.captured_start_offset).unwrap();
+		// An implicit document starts at its first token, which may be
+		// indented. Keep that indentation in the chunk: without it, an indented
+		// plain scalar like "---" or "..." would turn into a document marker in
+		// the second parsing pass.
+		while trim_len > 0 && matches!(self.captured[trim_len - 1], b' ' | b'\t') {
+			trim_len -= 1;
+		}
+		self.captured_start_offset += trim_len as u64;
 		self.captured.drain(..trim_len);
 	}
 
